@@ -267,7 +267,7 @@ func (fr *Frame) doCall(in ssa.Instruction, com *ssa.CallCommon, st *State, isGo
 				fr.safetyOb("nil-func", "", not(eq(fv.T[0], Term{"nil_fn", SFn})), pos, "call of nil function value")
 			}
 		}
-	} else if !fr.assumedNonNilOrigin(com.Value) {
+	} else if !fr.assumedNonNilOrigin(com.Value) || fr.nullableField(com.Value) {
 		fr.safetyOb("nil-invoke", com.Method.Name(), not(eq(ifTag(ca.terms[0]), Term{"0", SInt})), pos, "method call on nil interface value")
 	} else {
 		c.assumeNote("interface values held in parameters and in fields of the receiver are assumed non-nil when methods are called on them (constructor invariant)")
@@ -1288,4 +1288,21 @@ func (fr *Frame) assumedNonNilOrigin(v ssa.Value) bool {
 		}
 	}
 	return false
+}
+
+// nullableField: the value is loaded from a struct field that the contract declares nullable.
+func (fr *Frame) nullableField(v ssa.Value) bool {
+	if fr.con == nil || len(fr.con.Nullable) == 0 {
+		return false
+	}
+	ld, ok := v.(*ssa.UnOp)
+	if !ok || ld.Op != token.MUL {
+		return false
+	}
+	fa, ok := ld.X.(*ssa.FieldAddr)
+	if !ok {
+		return false
+	}
+	st, ok := fa.X.Type().Underlying().(*types.Pointer).Elem().Underlying().(*types.Struct)
+	return ok && fr.con.Nullable[st.Field(fa.Field).Name()]
 }
